@@ -323,6 +323,14 @@ def kill_matrix(prop):
     repo = os.environ.get('PYVC_REPO', '/repo')
     for d in sorted(glob.glob(os.path.join(ROOT, 'seeded', prop + '-m*'))):
         name = os.path.basename(d)
+        try:
+            with open(os.path.join(d, 'meta.json')) as f:
+                if json.load(f).get('retired'):
+                    out.append({'change': name, 'outcome': 'retired', 'why': 'no longer breaks the property on this tree '
+                                                                           '(see seeded/%s/meta.json)' % name})
+                    continue
+        except (OSError, ValueError):
+            pass
         scr = tempfile.mkdtemp(prefix='pyvc-km-')
         try:
             shutil.copytree(os.path.join(repo, 'pyasn1'), os.path.join(scr, 'pyasn1'))
